@@ -38,6 +38,7 @@ type c12Job struct {
 	Extra   []string    `json:"extra,omitempty"` // unfiltered block fields added to the declaration (they select the fetch plan)
 	Judged  bool        `json:"judged"`
 	Family  string      `json:"family"`
+	History string      `json:"history,omitempty"` // "" | "removed" | "added": the referenced table changes BETWEEN two steps of the integration under test
 	Batch   int         `json:"batch"`
 	Conc    int         `json:"conc"`
 }
@@ -242,6 +243,21 @@ func c12Jobs(thorough bool) []c12Job {
 			}
 		}
 	}
+	// F4h: the referenced table CHANGES between two steps of the integration under test (batch 2 over 4
+	// blocks): a referenced value is removed after it was looked up (what a reorg of the referenced
+	// integration does), or appears only after earlier blocks were judged without it. Every block is
+	// judged against the referenced table as it was when the block was processed.
+	for _, rt := range [][2]string{{"EV1", "in:from"}, {"EV1", "f:tx_to"}, {"EV1", "f:log_addr"}, {"EV2", "in:tag"}, {"TX", "f:tx_to"}, {"TR", "f:trace_action_from"}} {
+		for _, hist := range []string{"removed", "added"} {
+			for _, op := range []string{"contains", "!contains"} {
+				rf := c12Filter{Target: rt[1], Op: op, Ref: "all"}
+				add(c12Job{Shape: rt[0], Filters: []c12Filter{rf}, Judged: true, Family: "ref-history", History: hist})
+				for _, agg := range []string{"and", "or"} {
+					add(c12Job{Shape: rt[0], Filters: []c12Filter{rf, second[rt[0]]}, Agg: agg, Judged: true, Family: "ref-history", History: hist})
+				}
+			}
+		}
+	}
 	// F4b: a log_addr filter with full addresses (the push-down candidate) next to a REFERENCE-ONLY filter
 	// (filter_ref, no filter_arg) on an event input or on a block field: logs from contracts that are not
 	// listed carry referenced values, so under or / unset the address restriction must not be sent
@@ -335,6 +351,7 @@ type c12Prep struct {
 	snap         *simpg.Snapshot
 	chain        *simeth.Chain
 	refKind      string
+	removeVal    string // rendered value deleted from the referenced table in a "removed" history
 }
 
 func c12ClassVal(kind, s string) ref.Value {
@@ -369,7 +386,9 @@ func c12Prepare(j c12Job) (*c12Prep, error) {
 			if p.rd != nil {
 				return nil, fmt.Errorf("c12: at most one reference filter per job")
 			}
-			p.rd, p.refKind = c12RefDecl(kind), kind
+			jb, _ := json.Marshal(j)
+			p.rd, p.refKind = c12RefDecl(kind, fmt.Sprintf("rt_%016x", fw.Hash64(string(jb)))), kind
+			p.removeVal = world.Render(c12ClassVal(kind, c12Classes(f.Target)[0]))
 			r = &world.Ref{Integration: "r1", Column: "who"}
 			cl := c12Classes(f.Target)
 			switch kind {
@@ -444,12 +463,14 @@ type c12Expect struct {
 }
 
 // first: evaluate string eq/ne with the first argument only (the suspected implementation reading; used to classify a mismatch, never as oracle).
-func c12Expected(j c12Job, p *c12Prep, inRef func(v any) bool, first bool) c12Expect {
+func c12Expected(j c12Job, p *c12Prep, inRefAt func(v any, block uint64) bool, first bool) c12Expect {
 	e := c12Expect{accepted: map[[2]uint64]bool{}, judged: true, combos: map[string]int{}}
 	head := p.chain.Head().Num
 	cand := p.strip.Expect(p.chain, "src1", 7, 1, head, nil)
 	e.cand = len(cand)
 	for _, r := range cand {
+		blk := r["block_num"].(*big.Int).Uint64()
+		inRef := func(v any) bool { return inRefAt(v, blk) } // the referenced table as it was when this block was processed
 		set, val := false, false
 		combo := ""
 		for _, f := range j.Filters {
@@ -628,6 +649,9 @@ func c12Sig(j c12Job) string {
 	if len(parts) == 0 {
 		parts = []string{"nofilter"}
 	}
+	if j.History != "" {
+		return kind + ":" + agg + ":" + strings.Join(parts, "+") + ":referenced-value-" + j.History
+	}
 	return kind + ":" + agg + ":" + strings.Join(parts, "+")
 }
 
@@ -664,14 +688,20 @@ func c12PushdownKey(j c12Job, pushed []string) string {
 	return "pushdown-excludes:address-list-without-log_addr-filter"
 }
 
+// c12Snap: the referenced table (rendered values of its column) while blocks lo..hi were processed.
+type c12Snap struct {
+	lo, hi uint64
+	set    map[string]bool
+}
+
 func c12Exec(j c12Job, p *c12Prep) (res c12Result) {
 	w := world.New(nil, world.Cfg{Snap: p.snap, Chains: map[string]*simeth.Chain{"node1": p.chain}})
 	head := p.chain.Head().Num
 	var (
 		stepErr   error
 		stepOut   string
-		exFrom    int
-		refDump   []simpg.Row
+		dEx       []*simeth.Exchange // RPC exchanges issued by steps of the integration under test
+		snaps     []c12Snap
 		dump      []string
 		cols      []string
 		cursorNum uint64
@@ -706,23 +736,94 @@ func c12Exec(j c12Job, p *c12Prep) (res c12Result) {
 			}
 			return "noconverge", nil
 		}
-		if p.rd != nil {
+		checkRef := func() bool {
+			rcols := w.TableCols(p.rd.Table)
+			got := world.RenderDump(w.PG.Dump(p.rd.Table), rcols)
+			c, _ := w.Latest("src1", "r1")
+			want := world.RenderRows(p.rd.Expect(p.chain, "src1", 7, 1, c.Num, nil), rcols)
+			if strings.Join(got, "\n") != strings.Join(want, "\n") {
+				w.HarnessErr = "referenced table differs from its projection:\n" + world.DiffSorted(got, want)
+				return false
+			}
+			return true
+		}
+		// one step of the integration under test; the blocks it covers are judged against the
+		// referenced table as it is during that step (sequential run: it cannot change meanwhile)
+		stepD := func() string {
+			snap := map[string]bool{}
+			if p.rd != nil {
+				for _, r := range w.PG.Dump(p.rd.Table) {
+					snap[world.Render(r.Vals["who"])] = true
+				}
+				res.refRows = len(snap)
+			}
+			before, _ := w.Latest("src1", "ig1")
+			ex0 := len(w.Net.Exchanges())
+			out, err := byName["ig1"].Step()
+			dEx = append(dEx, w.Net.Exchanges()[ex0:]...)
+			after, has := w.Latest("src1", "ig1")
+			if out == "ok" && has {
+				snaps = append(snaps, c12Snap{lo: before.Num + 1, hi: after.Num, set: snap})
+			}
+			stepOut, stepErr = out, err
+			return out
+		}
+		runD := func() {
+			for s := 0; s < 16; s++ {
+				switch stepD() {
+				case "ok":
+					continue
+				case "nothing":
+					stepOut = "converged"
+				}
+				return
+			}
+			stepOut = "noconverge"
+		}
+		refDone := func() bool {
 			out, err := run(byName["r1"])
 			if out != "converged" {
 				w.HarnessErr = fmt.Sprintf("referenced integration did not converge: %s %v", out, err)
-				return
+				return false
 			}
-			refDump = w.PG.Dump("rt1")
-			rcols := w.TableCols("rt1")
-			got := world.RenderDump(refDump, rcols)
-			want := world.RenderRows(p.rd.Expect(p.chain, "src1", 7, 1, head, nil), rcols)
-			if strings.Join(got, "\n") != strings.Join(want, "\n") {
-				w.HarnessErr = "referenced table differs from its projection:\n" + world.DiffSorted(got, want)
-				return
-			}
+			return checkRef()
 		}
-		exFrom = len(w.Net.Exchanges())
-		stepOut, stepErr = run(byName["ig1"])
+		switch {
+		case p.rd == nil:
+			runD()
+		case j.History == "removed": // R complete; D's first step; a referenced value disappears (as after a reorg of R); D's remaining steps
+			if !refDone() {
+				return
+			}
+			if stepD() == "ok" {
+				n := w.PG.DeleteWhere(p.rd.Table, func(r simpg.Row) bool { return world.Render(r.Vals["who"]) == p.removeVal })
+				if n == 0 {
+					w.HarnessErr = "history: nothing to remove from the referenced table"
+					return
+				}
+				runD()
+			}
+		case j.History == "added": // R's first step; D as far as it may go; R completes (new referenced values appear); D's remaining steps
+			if out, err := byName["r1"].Step(); out != "ok" {
+				w.HarnessErr = fmt.Sprintf("referenced integration: first step %s %v", out, err)
+				return
+			}
+			if !checkRef() {
+				return
+			}
+			runD()
+			if stepOut == "converged" {
+				if !refDone() {
+					return
+				}
+				runD()
+			}
+		default:
+			if !refDone() {
+				return
+			}
+			runD()
+		}
 		cols = w.TableCols("t1")
 		dump = world.RenderDump(w.PG.Dump("t1"), cols)
 		c, ok := w.Latest("src1", "ig1")
@@ -739,13 +840,16 @@ func c12Exec(j c12Job, p *c12Prep) (res c12Result) {
 		res.harness = "deadlock in a sequential run: " + w.V.DeadlockMsg
 		return
 	}
-	// reference lookup: membership in the referenced table as it finally is
-	refSet := map[string]bool{}
-	for _, r := range refDump {
-		refSet[world.Render(r.Vals["who"])] = true
+	// reference lookup: membership in the referenced table as it was when the block was processed;
+	// blocks that were never processed do not matter (the cursor check fails first)
+	inRef := func(v any, block uint64) bool {
+		for _, sn := range snaps {
+			if block >= sn.lo && block <= sn.hi {
+				return sn.set[world.Render(v)]
+			}
+		}
+		return false
 	}
-	res.refRows = len(refDump)
-	inRef := func(v any) bool { return refSet[world.Render(v)] }
 	exp := c12Expected(j, p, inRef, false)
 	res.cand, res.combos = exp.cand, len(exp.combos)
 	want := world.RenderRows(exp.rows, cols)
@@ -756,7 +860,7 @@ func c12Exec(j c12Job, p *c12Prep) (res c12Result) {
 
 	// eth_getLogs parameters sent for the integration under test
 	var gls []c12GetLogs
-	for _, ex := range w.Net.Exchanges()[exFrom:] {
+	for _, ex := range dEx {
 		gls = append(gls, c12ParseGetLogs(ex)...)
 	}
 	res.getlogs = len(gls)
@@ -870,8 +974,8 @@ func c12Exec(j c12Job, p *c12Prep) (res c12Result) {
 				multiStr = true
 			}
 		}
-		if !multiStr {
-			look := func(ig, col string, v []byte) bool { return inRef(v) }
+		if !multiStr && j.History == "" {
+			look := func(ig, col string, v []byte) bool { return inRef(v, 1) }
 			shared := world.RenderRows(p.d.Expect(p.chain, "src1", 7, 1, head, look), cols)
 			if strings.Join(shared, "\n") != strings.Join(want, "\n") {
 				res.harness = "C12 predicate and world.Decl.Expect disagree on a job where they must agree:\n" + world.DiffSorted(want, shared)
